@@ -220,6 +220,9 @@ fn offset_class(k: usize) -> u64 {
 }
 
 fn fault_kind(script: &Script, side: Side) -> &'static str {
+    if script.eof_at.is_none() && script.fail_at.is_none() && script.steps.iter().any(|s| matches!(s, crate::io_fault::Step::Transient)) {
+        return if side == Side::Ser { "transient-write-error" } else { "transient-read-error" };
+    }
     match (side, script.eof_at.is_some(), script.fail_at.is_some()) {
         (Side::De, true, _) => "eof",
         (Side::De, false, true) => "read-error",
@@ -343,21 +346,21 @@ fn rnsp_run(i: usize, run_seed: u64, b: &Budget) -> RunOut {
         }
     };
     for k in offsets(m.consumed, b.offset_cap, &mut frng) {
-        let mut s = if frng.coin() { Script::clean() } else { Script::draw(&mut frng, false) };
+        let mut s = if frng.coin() { Script::clean() } else { Script::draw_with_transient(&mut frng, false) };
         s.eof_at = Some(k);
         judge(false, s, &mut out, &mut log);
-        let mut s = if frng.coin() { Script::clean() } else { Script::draw(&mut frng, false) };
+        let mut s = if frng.coin() { Script::clean() } else { Script::draw_with_transient(&mut frng, false) };
         s.fail_at = Some(k);
         judge(false, s, &mut out, &mut log);
     }
     for k in offsets(m.enc.len(), b.offset_cap, &mut frng) {
-        let mut s = if frng.coin() { Script::clean() } else { Script::draw(&mut frng, true) };
+        let mut s = if frng.coin() { Script::clean() } else { Script::draw_with_transient(&mut frng, true) };
         s.fail_at = Some(k);
         judge(true, s, &mut out, &mut log);
     }
     for _ in 0..b.scripts {
-        judge(true, Script::draw(&mut frng, true), &mut out, &mut log);
-        judge(false, Script::draw(&mut frng, false), &mut out, &mut log);
+        judge(true, Script::draw_with_transient(&mut frng, true), &mut out, &mut log);
+        judge(false, Script::draw_with_transient(&mut frng, false), &mut out, &mut log);
     }
     out.count("evaluations", evals);
     out.log_hash = log.finish();
@@ -431,8 +434,9 @@ fn one_run(i: usize, run_seed: u64, b: &Budget) -> RunOut {
         out.count("fired.zero_write", o.fired.zero as u64);
         out.count("fired.hard_error", o.fired.hard_error as u64);
         out.count("fired.eof", o.fired.eof as u64);
+        out.count("fired.transient_would_block", o.fired.transient as u64);
         out.count("io_calls", o.fired.calls as u64);
-        let fault_fired = o.fired.hard_error + o.fired.eof + o.fired.short + o.fired.interrupted + o.fired.zero > 0;
+        let fault_fired = o.fired.hard_error + o.fired.eof + o.fired.short + o.fired.interrupted + o.fired.zero + o.fired.transient > 0;
         if fault_fired {
             let off = script.eof_at.or(script.fail_at).unwrap_or(0);
             let h = util::h64(format!("{}|{}|{}|{}|{}", oclass, sclass, side.name(), kind, offset_class(off)).as_bytes());
@@ -460,16 +464,16 @@ fn one_run(i: usize, run_seed: u64, b: &Budget) -> RunOut {
     let nscripts = if big { 6 } else { b.scripts };
     // reader side: every EOF offset and every hard-error offset
     for k in offsets(m.consumed, cap, &mut frng) {
-        let mut s = if frng.coin() { Script::clean() } else { Script::draw(&mut frng, false) };
+        let mut s = if frng.coin() { Script::clean() } else { Script::draw_with_transient(&mut frng, false) };
         s.eof_at = Some(k);
         judge(Side::De, s, &mut out, &mut log);
-        let mut s = if frng.coin() { Script::clean() } else { Script::draw(&mut frng, false) };
+        let mut s = if frng.coin() { Script::clean() } else { Script::draw_with_transient(&mut frng, false) };
         s.fail_at = Some(k);
         judge(Side::De, s, &mut out, &mut log);
     }
     // writer side: every hard-failure offset
     for (j, k) in offsets(m.enc.len(), cap, &mut frng).into_iter().enumerate() {
-        let mut s = if frng.coin() { Script::clean() } else { Script::draw(&mut frng, true) };
+        let mut s = if frng.coin() { Script::clean() } else { Script::draw_with_transient(&mut frng, true) };
         s.fail_at = Some(k);
         judge(Side::Ser, s, &mut out, &mut log);
         // a healthy transfer right after a failed one, on the same thread: nothing of the failed
@@ -480,8 +484,8 @@ fn one_run(i: usize, run_seed: u64, b: &Budget) -> RunOut {
     }
     // fault-free fragmentation both ways
     for _ in 0..nscripts {
-        judge(Side::Ser, Script::draw(&mut frng, true), &mut out, &mut log);
-        judge(Side::De, Script::draw(&mut frng, false), &mut out, &mut log);
+        judge(Side::Ser, Script::draw_with_transient(&mut frng, true), &mut out, &mut log);
+        judge(Side::De, Script::draw_with_transient(&mut frng, false), &mut out, &mut log);
     }
     out.count("evaluations", evals);
     out.log_hash = log.finish();
